@@ -22,7 +22,7 @@ fn has_global(e: &Expression) -> bool {
 }
 
 pub fn run(ctx: &Ctx, rep: &mut Report) {
-    let n = ctx.pick(5000, 4_000_000);
+    let n = ctx.pick(5000, 20_000_000);
     par_cases(ctx, "insert", n, rep, |i, rep| {
         let mut r = Rng::for_case(ctx.seed, "insert", i);
         let case = format!("insert:{}", i);
